@@ -411,6 +411,8 @@ func (r *RemoteList) CopyBlockedRemotes() []netip.AddrPort {
 func (r *RemoteList) RefreshFromHandshake(vpnAddrs []netip.Addr) {
 	r.Lock()
 	r.badRemotes = nil
+	// unblocked addresses have to come back into the address list
+	r.shouldRebuild = true
 	r.vpnAddrs = make([]netip.Addr, len(vpnAddrs))
 	copy(r.vpnAddrs, vpnAddrs)
 	r.Unlock()
@@ -420,6 +422,7 @@ func (r *RemoteList) RefreshFromHandshake(vpnAddrs []netip.Addr) {
 func (r *RemoteList) ResetBlockedRemotes() {
 	r.Lock()
 	r.badRemotes = nil
+	r.shouldRebuild = true
 	r.Unlock()
 }
 
